@@ -44,6 +44,22 @@ def cases(tier, rng):
                 out.append(Case([{"op": "names.files", "cat": cat, "ex": ex, "plat": plat,
                                   "chunks": list(range(10)), "dats": list(range(8))}],
                                 key="files-%d-%d-%d" % (cat, ex, plat)))
+    # patch side: the file names ZiPatch::apply writes to, for the same domain
+    from gen import zipatch
+    for cat in CATS:
+        for ex in (range(10) if tier == "thorough" else (0, 1, 9)):
+            for plat in range(5):
+                chunks = list(range(10)) if tier == "thorough" else [0, 3, 9]
+                dats = list(range(8)) if tier == "thorough" else [0, 7]
+                cs = [{"k": "T", "plat": plat}]
+                for ch in chunks:
+                    for d in dats:
+                        cs.append({"k": "A", "main": cat, "sub": ex * 256 + ch, "file": d, "off": 0,
+                                   "data": [[1, 128]], "del": 0})
+                cs.append({"k": "EOF"})
+                out.append(Case([{"op": "names.patchfiles", "case": len(out), "cat": cat, "ex": ex, "plat": plat,
+                                  "chunks": chunks, "dats": dats, "_patch": zipatch.encode_patch(cs).hex()}],
+                                key="patchfiles-%d-%d-%d" % (cat, ex, plat)))
     # repository order: every arrangement of every subset of the universe
     uni = [0, 1, 2, 3, 5, 9] if tier == "quick" else [0, 1, 2, 3, 4, 5, 9]
     n = 0
@@ -76,8 +92,7 @@ def check(run):
     run.conform(cs, MODULE, CFG, prelude=race_lines(), epilogue=[{"op": "mark.end", "partial": False}])
     run.assumptions = ["documented tribe numbering (two consecutive tribe ids per race) and cXXXX path formats "
                        "as recalled from public documentation",
-                       "patch-side file names are observed by C03's driver; here the read side is compared "
-                       "with the specification's patch-side formatter"]
+                       "patch-side names are observed through real ZiPatch::apply runs for all five platform codes"]
 
 
 def replay(run, rp):
